@@ -100,10 +100,16 @@ pub fn help_doc(it: &J) -> bpaf::Doc {
         if c > from {
             // neighbouring fragments of one style are merged by bpaf: alternate the styles
             let frag = chars[from..c].iter().collect::<String>();
-            match k % 3 {
+            match k % 4 {
                 0 => doc.text(&frag),
                 1 => doc.literal(&frag),
-                _ => doc.emphasis(&frag),
+                2 => doc.emphasis(&frag),
+                _ => {
+                    // a fragment that is a Doc of its own, embedded with `Doc::doc`
+                    let mut inner = bpaf::Doc::default();
+                    inner.text(&frag);
+                    doc.doc(&inner);
+                }
             }
             k += 1;
             from = c;
@@ -517,9 +523,10 @@ pub fn build_node(it: &J) -> P {
             kind == "adj" || b(it, "adjacent"),
         ),
         "any" => {
-            // escape hatch: consumes items that start with `@`
-            let a = any::<OsString, _, _>(metavar(it), |x: OsString| {
-                if x.to_string_lossy().starts_with('@') {
+            // escape hatch: consumes items that start with `@` (or with the given prefix, e.g. `-D` for `-Dname=value`)
+            let prefix: &'static str = if s(it, "prefix").is_empty() { "@" } else { leak(s(it, "prefix")) };
+            let a = any::<OsString, _, _>(metavar(it), move |x: OsString| {
+                if x.to_string_lossy().starts_with(prefix) {
                     Some(x)
                 } else {
                     None
